@@ -5,7 +5,7 @@ import wire
 from wire import mk_fmt, cells
 from props.common import guarded, canon_cells_list, reply_fmt_list
 from props.widthenv import (env_fields, text_of, realize, shared_variants, shared_case_fields, pool_size, pool_object,
-                            safe_oracle, safe_impl)
+                            safe_oracle, safe_impl, limit_memory, BIG, HUGE)
 from curtsies.formatstring import linesplit
 
 PROP = "C16"
@@ -13,7 +13,8 @@ MODULES = ["Curtsies.Properties.C16"]
 RULE = ("exhaustive: every string of length <=5 (quick) / <=7 (thorough, sharded over processes) over "
         "{a, b, ' ', TAB, LF} x 4 run layouts (one run; two runs; one run per character with three partially "
         "overlapping attribute sets; four runs incl. an empty one) x columns 1..4, plus FmtStr() without runs and plain "
-        "str arguments; FmtStr values sharing Chunk objects by identity (f*2, f*3, f+f, join with repeated item/separator, "
+        "str arguments; LARGE column counts 255..258, 300, 1000, 65537 with words that just fit / just do not fit / are "
+        "longer than a line; FmtStr values sharing Chunk objects by identity (f*2, f*3, f+f, join with repeated item/separator, "
         "whole-run slices concatenated; strings <=3) and objects from random public-API programs (common.api_pool); "
         "seeded random strings of length 6..24 with further Unicode whitespace, columns 1..9; tie-only: "
         "columns 0. non-trivial = distinct case with at least one word")
@@ -68,6 +69,24 @@ def all_strings(maxlen):
 def extra_cases(ctx):
     r = ctx.rng
     extra = []
+    # LARGE column counts (every columns >= 1): words that just fit / just do not fit / are longer than a line
+    for columns in BIG + ((HUGE,) if True else ()):
+        reps = (1,) if columns == HUGE and not ctx.thorough else (1, 2)
+        for rep in reps:
+            texts = ["a" * (columns - 2) + " " + "b",                       # fits exactly: len + 1 + len == columns
+                     "a" * (columns - 1) + "\t" + "b",                      # one too long
+                     "a" * columns + " b",                                   # full line, next word on its own line
+                     "a" * (columns + 1) + " " + "b" * (columns - 2),        # chopped: 1 left over, then a word that fits
+                     ("ab " * (columns // 3 + 2)) * rep,                    # many short words across the limit
+                     "a" * (2 * columns + 3)]                               # two full pieces and a rest
+            for t in texts:
+                if columns == HUGE and t.count(" ") > 2:
+                    continue      # joining ~22 000 words onto one line is quadratic in the library itself (minutes)
+                h = len(t) // 2
+                extra.append(dict(op="linesplit", f=[(t, dict(PA))], columns=columns))
+                extra.append(dict(op="linesplit", f=[(t[:h], dict(PA)), (t[h:], dict(PC))], columns=columns))
+                if columns != HUGE:
+                    extra.append(dict(op="linesplit_str", f=[(t, {})], columns=columns))
     for columns in (0, 1, 2, 3, 4):
         extra.append(dict(op="linesplit", f=[], columns=columns))
     for s in all_strings(3):
@@ -271,6 +290,7 @@ def _work(strings):
 
 
 def check(ctx):
+    limit_memory()
     maxlen = 7 if ctx.thorough else 5
     strings = list(all_strings(maxlen))
     cases = [c for s in strings for c in cases_for_string(s)]
